@@ -54,6 +54,7 @@ class Ctx:
         self.calls_resolved = 0
         self.calls_total = 0
         self.current_rule = None
+        self.analysis_errors = []
 
     def ob(self, func, construct, ok, loc, msg, witness=None, rule=None):
         o = Ob(rule or self.current_rule, func, construct, ok, loc, msg, witness)
@@ -116,12 +117,19 @@ def run_property(propmod, root, tier="quick", only_rules=None):
             continue
         ctx.current_rule = rid
         before = len(ctx.obs)
-        fn(ctx)
+        try:
+            fn(ctx)
+        except AnalysisError as e:
+            # keep going: a violation found by another rule must still be reported;
+            # the run is only "analysis broken" (exit 2) if nothing else is wrong
+            ctx.analysis_errors.append("%s: %s" % (rid, e))
         counts[rid] = len(ctx.obs) - before
     ctx.current_rule = None
     missed = []
     for rid, floor in getattr(propmod, "FLOORS", {}).items():
         if only_rules and rid not in only_rules:
+            continue
+        if any(e.startswith(rid + ":") for e in ctx.analysis_errors):
             continue
         if counts.get(rid, 0) < floor:
             missed.append("%s: %d instances found, floor is %d" % (rid, counts.get(rid, 0), floor))
